@@ -521,4 +521,66 @@ theorem resize_tie (dr : Bool) (empty c e : Cols) (k n fuel : Nat) (hc : c.lock 
     simp [hk, afterSelf, hsT, dropV, leftovers, leftovers.go, hps, hdr]
     cases tpan <;> simp [ev_append_def]
 
+/-! ## `extend_from_slice`: reserve, then `push(item.to_owned())` for every element of the source -/
+
+/-- everything but the clone events (which the interpreter records element by element, the model field by field) -/
+def core (o : Out) : Cols × Bool × List Nat × List Nat × List (List Nat) × List Nat :=
+  (o.st, o.panicked, o.ev.drops, o.ev.dropT, o.vis, o.made)
+
+def efsBody : List St := [(.expr (.mcall .self_ "push" [(.mcall (.var "item") "to_owned" [])]))]
+
+def efsStmts : List St :=
+  [(.expr (.mcall .self_ "reserve" [(.mcall (.param 0) "len" [])])),
+   (.forIn "item" (.mcall (.param 0) "iter" []) efsBody)]
+
+theorem efs_stmts : lp_PVec_soa_derive_SoAAppendVec_P_extend_from_slice.stmts = efsStmts ∧
+    lp_PVec_soa_derive_SoAAppendVec_P_extend_from_slice.tail = none := ⟨rfl, rfl⟩
+
+section efs
+variable (dr : Bool) (empty d : Cols)
+
+def efsEnv (fuel : Nat) : Env := { dr := dr, ps := [.src d], M := modelMethods dr empty, fuel := fuel }
+
+def efsIter (fuel : Nat) : Nat → Mach → Res Unit := fun i m =>
+  (execList (efsEnv dr empty d fuel) efsBody { m with locals := ("item", .sref d i) :: m.locals }).bind fun _ m =>
+    .ok () { m with locals := m.locals.drop 1 }
+
+theorem efs_loop (F : Nat) : ∀ (j i : Nat) (c : Cols) (m : Mach), m.self = c →
+    (outOf (forRange (efsIter dr empty d F) i j m)).map core =
+      some ((Model.extend c ((List.range' i j).map (Model.rowCols d))).st,
+            (Model.extend c ((List.range' i j).map (Model.rowCols d))).panicked, m.ev.drops, m.ev.dropT, m.vis, m.made)
+  | 0, i, c, m, hm => by simp [forRange, outOf, core, Model.extend, hm]
+  | j + 1, i, c, m, hm => by
+    have hev : (Model.push c (Model.rowCols d i)).ev = {} := rfl
+    simp only [forRange, List.range'_succ, List.map_cons, Model.extend]
+    by_cases hp : (Model.push c (Model.rowCols d i)).panicked = true
+    · simp [efsIter, efsBody, efsEnv, execList, exec, eval, evalList, lookup, callSelf, callOther, afterSelf, moveArg,
+        modelMethods, asParam, asVar, hm, hp, hev, outOf, core, ev_append_def]
+    · have hp' : (Model.push c (Model.rowCols d i)).panicked = false := by simpa using hp
+      have ih := efs_loop F j (i + 1) (Model.push c (Model.rowCols d i)).st
+        { m with self := (Model.push c (Model.rowCols d i)).st, ev := m.ev ++ { clones := (Model.rowCols d i).flat } } rfl
+      simp [efsIter, efsBody, efsEnv, execList, exec, eval, evalList, lookup, callSelf, callOther, afterSelf, moveArg,
+        modelMethods, asParam, asVar, hm, hp', hev, dropV, ev_append_def] at ih ⊢
+      exact ih
+
+end efs
+
+/-- **`extend_from_slice`** as extracted: contents and panic flag of `Model.extendFromSlice`, nothing destroyed -/
+theorem extend_from_slice_tie (dr : Bool) (empty c d : Cols) (fuel : Nat) :
+    (run { dr := dr, ps := [.src d], M := modelMethods dr empty, fuel := fuel }
+        lp_PVec_soa_derive_SoAAppendVec_P_extend_from_slice c).map core =
+      some ((Model.extendFromSlice c d).st, (Model.extendFromSlice c d).panicked, [], [], [], []) := by
+  have hM : (efsEnv dr empty d fuel).M = modelMethods dr empty := rfl
+  have hlen : (modelMethods dr empty).len = Cols.firstLen := rfl
+  have hps : (efsEnv dr empty d fuel).ps = [.src d] := rfl
+  have hdr : (efsEnv dr empty d fuel).dr = dr := rfl
+  have h := efs_loop dr empty d fuel d.firstLen 0 c { self := c, ev := {} ++ dropV dr V.unit } rfl
+  unfold efsIter at h
+  show (run (efsEnv dr empty d fuel) lp_PVec_soa_derive_SoAAppendVec_P_extend_from_slice c).map core = _
+  rw [run_unit _ _ _ efs_stmts.2 (by intro m; simp [leftovers, leftovers.go, efsEnv]), efs_stmts.1]
+  simp only [efsStmts, execList, exec, eval, evalList, callSelf, callOther, hM, hlen, hps, hdr, Res.bind_ok, String.reduceEq,
+    ↓reduceIte, List.getElem?_cons_zero, outOf_bind_ok]
+  rw [h]
+  simp [Model.extendFromSlice, List.range_eq_range', dropV, ev_append_def]
+
 end Soa.Lp
